@@ -47,13 +47,31 @@ type c13env struct {
 	s        *dp.Schema
 	t        *dp.DNode
 	pristine *dp.DNode
-	store    *dp.Store
+	store    c18store
+	gm       *dp.GoMode // nil: the reference store
 }
 
 func (e *c13env) browser() *node.Browser { return e.store.Browser() }
 
 func (e *c13env) reset() {
-	e.store = dp.NewStore(e.s, e.pristine.Clone())
+	if e.gm != nil {
+		e.store = &c18go{dp.NewGoStore(e.c.Rand, e.s, *e.gm, e.pristine.Clone())}
+		return
+	}
+	e.store = &c18ref{dp.NewStore(e.s, e.pristine.Clone())}
+}
+
+// stored returns the store content read without the library, and the comparison options that go with the store
+func (e *c13env) stored() (*dp.DNode, *dp.DNode, dp.CmpOpts, error) {
+	snap, err := e.store.Snap()
+	if e.gm == nil {
+		return e.pristine, snap, dp.CmpOpts{}, err
+	}
+	want := e.pristine
+	if e.gm.Shape == "struct" {
+		want = dp.ZeroNormalize(want)
+	}
+	return want, snap, dp.CmpOpts{IgnoreListOrder: true, EmptyListIsAbsent: true}, err
 }
 
 // try runs one hostile input; fam names the input family for signatures.
@@ -75,7 +93,11 @@ func (e *c13env) try(fam, kind, input string, readOnly bool, f func() error) {
 	c.Count("outcome_" + outcome)
 	c.Shape("%s/%s/%s", fam, kind, outcome)
 	if readOnly {
-		if d := dp.Diff(e.s, e.pristine, e.store.Root, dp.CmpOpts{}); d != "" {
+		want, snap, cmp, serr := e.stored()
+		if serr != nil {
+			c.Violate("store-corrupt/"+fam, "%s input (%s) left Go values that no longer denote a tree of the schema: %v\ninput: %s", fam, kind, serr, quoteHead(input, 800))
+			e.reset()
+		} else if d := dp.Diff(e.s, want, snap, cmp); d != "" {
 			c.Violate("read-modified-store/"+fam, "%s input (%s) changed stored data:\n%s\ninput: %s", fam, kind, d, quoteHead(input, 800))
 			e.reset()
 		}
@@ -87,7 +109,12 @@ func (e *c13env) try(fam, kind, input string, readOnly bool, f func() error) {
 	if pv != nil {
 		c.Violate("store-unreadable/"+core.CrashSig(pv, st)+"/"+fam, "after the %s request (%s) reading the store panicked: %v\ninput: %s\n%s", fam, kind, pv, quoteHead(input, 800), core.TrimStack(st))
 	} else if xerr != nil {
-		c.Violate("store-unreadable/error/"+fam, "after the %s request (%s) reading the store fails: %v\ninput: %s", fam, kind, xerr, quoteHead(input, 800))
+		cls := "error"
+		if strings.Contains(xerr.Error(), "is missing its key") && err != nil {
+			// the rejected request failed inside a list entry it had just created, before that entry's key leaf was written
+			cls = "keyless-entry-left-behind"
+		}
+		c.Violate("store-unreadable/"+cls+"/"+fam, "after the %s request (%s, result: %v) reading the store fails: %v\ninput: %s\nstore: %s", fam, kind, err, xerr, quoteHead(input, 800), e.store.Describe())
 	}
 	e.reset()
 }
@@ -95,6 +122,7 @@ func (e *c13env) try(fam, kind, input string, readOnly bool, f func() error) {
 func (p c13) Run(c *core.Ctx, idx int) {
 	r := c.Rand
 	var s *dp.Schema
+	var gm *dp.GoMode
 	if idx%2 == 0 {
 		s = c12Schema()
 		// widen with every leaf type
@@ -119,6 +147,15 @@ func (p c13) Run(c *core.Ctx, idx int) {
 		o.Choices = true
 		o.NestedChoice = true
 		o.MaxDepth = 3
+		if k := (idx / 16) % 5; k > 0 {
+			// the hostile requests go to one of the library's reflection nodes over plain Go values
+			m := dp.GoModes[k-1]
+			gm = &m
+			dp.GoGen(&o, m)
+			o.Choices = m.Shape == "map"
+			o.NestedChoice = o.Choices
+			o.Defaults = false
+		}
 		s = dp.GenSchema(r, o)
 	}
 	if err := s.Compile(); err != nil {
@@ -129,8 +166,14 @@ func (p c13) Run(c *core.Ctx, idx int) {
 	do.PSet, do.PKid = 0.85, 0.9
 	do.MaxEntries = 2
 	t := dp.GenTree(r, s, do)
-	e := &c13env{c: c, s: s, t: t, pristine: t.Clone()}
+	if gm != nil && dp.GoSupports(s, *gm) != "" {
+		gm = nil
+	}
+	e := &c13env{c: c, s: s, t: t, pristine: t.Clone(), gm: gm}
 	e.reset()
+	if gm != nil {
+		c.Count("store_" + gm.String())
+	}
 	c.SetSample(map[string]interface{}{"yang": head(s.Yang(), 800), "family": idx % 8})
 	switch idx % 8 {
 	case 0, 1:
@@ -542,6 +585,7 @@ func (p c13) setValues(e *c13env) {
 		[]string{"a"}, []string{}, []int{1, 2}, []interface{}{1, "a", nil}, []interface{}{}, [][]string{{"a"}}, map[string]interface{}{"a": 1}, map[string]interface{}{}, struct{ A int }{1}, &struct{ A int }{1}, c13stringer{}, func() {}, make(chan int), []byte("hi"), []byte{},
 		complex(1, 2), [2]int{1, 2}, new(string), &ni, json.Number("12"), uintptr(5), 'x'}
 	var leafPaths []string
+	keyLeaf := map[string]bool{}
 	var rec func(d *dp.DNode, base string)
 	rec = func(d *dp.DNode, base string) {
 		var kids []*dp.SNode
@@ -552,7 +596,11 @@ func (p c13) setValues(e *c13env) {
 		}
 		for _, k := range kids {
 			if k.Kind == dp.Leaf || k.Kind == dp.LeafList {
-				leafPaths = append(leafPaths, strings.TrimPrefix(base+"/"+k.Name, "/"))
+				lp := strings.TrimPrefix(base+"/"+k.Name, "/")
+				leafPaths = append(leafPaths, lp)
+				if k.IsKey() {
+					keyLeaf[lp] = true
+				}
 			}
 		}
 		for n, k := range d.Kids {
@@ -572,6 +620,11 @@ func (p c13) setValues(e *c13env) {
 	for _, lp := range leafPaths {
 		for _, v := range vals {
 			vv, ll := v, lp
+			if (vv == nil || vv == "") && keyLeaf[ll] {
+				// taking the key away from an entry (an empty string is "unset" to a struct field) is not a request any store has to honour or survive (the statement is about
+				// rejected requests leaving the store readable; this one is accepted by stores that do not guard their keys)
+				continue
+			}
 			e.try("setvalue", fmt.Sprintf("%T", vv), fmt.Sprintf("%s <- %#v", ll, vv), false, func() error {
 				sel, err := e.browser().Root().Find(ll)
 				if err != nil || sel == nil {
